@@ -48,9 +48,9 @@ TECHNIQUE = 'bounded exhaustive enumeration of write histories (all compositions
 
 KINDS = ['buffered', 'open_w', 'gz', 'append', 'gz_append', 'stream']
 TYPE_NAMES = ['bed3', 'bed6', 'bedgraph', 'narrowpeak', 'bed12', 'fasta', 'fastq', 'sam', 'gtf', 'vcf', 'vcf_read',
-              'vcf_typed']
+              'vcf_typed', 'vcf_entry']
 SUFFIX = {'bed3': '.bed', 'bed6': '.bed', 'bedgraph': '.bdg', 'narrowpeak': '.narrowPeak', 'bed12': '.bed', 'fasta': '.fa',
-          'fastq': '.fq', 'sam': '.sam', 'gtf': '.gtf', 'vcf': '.vcf', 'vcf_read': '.vcf', 'vcf_typed': '.vcf'}
+          'fastq': '.fq', 'sam': '.sam', 'gtf': '.gtf', 'vcf': '.vcf', 'vcf_read': '.vcf', 'vcf_typed': '.vcf', 'vcf_entry': '.vcf'}
 
 
 def bounds(tier, seed):
@@ -95,7 +95,7 @@ def buffer_type_for(tname):
     if tname == 'vcf':
         from bionumpy.io.vcf_buffers import VCFWithInfoAsStringBuffer
         return VCFWithInfoAsStringBuffer
-    if tname in ('vcf_read', 'vcf_typed'):
+    if tname in ('vcf_read', 'vcf_typed', 'vcf_entry'):
         from bionumpy.io.vcf_buffers import VCFBuffer
         return VCFBuffer
     if tname == 'fasta':
@@ -131,7 +131,7 @@ def parse_output(tname, data):
                 raise ValueError('layout: record markers')
             rows.append([a[1:], s, q])
         return [], rows
-    comment = {'vcf': '#', 'vcf_read': '#', 'vcf_typed': '#', 'sam': '@'}.get(tname)
+    comment = {'vcf': '#', 'vcf_read': '#', 'vcf_typed': '#', 'vcf_entry': '#', 'sam': '@'}.get(tname)
     header = [l for l in lines if comment and l.startswith(comment)]
     body = [l for l in lines if not (comment and l.startswith(comment))]
     if comment and lines[:len(header)] != header:
@@ -154,13 +154,13 @@ def canonical_problem(tname, data, rows):
         return str(e)
     if len(out) != len(rows):
         return 'record count %d != %d' % (len(out), len(rows))
-    if tname in ('vcf', 'vcf_read', 'vcf_typed'):
+    if tname in ('vcf', 'vcf_read', 'vcf_typed', 'vcf_entry'):
         n_chrom = sum(1 for h in header if h.startswith('#CHROM'))
         if n_chrom > 1 or (rows and n_chrom != 1):
             return 'header emitted %d times' % n_chrom
     for i, (cells, row) in enumerate(zip(out, rows)):
         kinds = [k for _, k in spec['fields']]
-        if tname in ('vcf', 'vcf_read', 'vcf_typed'):
+        if tname in ('vcf', 'vcf_read', 'vcf_typed', 'vcf_entry'):
             cells = cells[:8]
         if len(cells) != len(kinds):
             return 'row %d has %d columns, expected %d' % (i, len(cells), len(kinds))
@@ -225,7 +225,7 @@ def write_with(kind, tname, piece_tables, scratch):
     path = os.path.join(scratch, 'out' + SUFFIX[tname] + ('.gz' if kind in ('gz', 'gz_append') else ''))
     if os.path.exists(path):
         os.unlink(path)
-    bt = B if tname in ('bed6', 'bed12', 'vcf') else None
+    bt = B if tname in ('bed6', 'bed12', 'vcf', 'vcf_entry') else None
     if kind in ('open_w', 'gz'):
         w = bnp.open(path, 'w', buffer_type=bt)
         for p in piece_tables:
@@ -344,7 +344,7 @@ def check_table(res, tname, row_ids, tier, seed, scratch, deadline):
                                 exp = [tuple(observe.norm(v) for v in r[:len(fields)]) for r in rows]
                                 if not T.rows_close(kinds, back, exp):
                                     res.fail('read-back-differs', case, dict(feats, lazy=lazy), expected=exp, observed=back)
-                    if n == 0 and tname in ('vcf', 'vcf_read', 'vcf_typed'):
+                    if n == 0 and tname in ('vcf', 'vcf_read', 'vcf_typed', 'vcf_entry'):
                         # an empty total: whether a header-only file or an empty file results is not stated
                         res.outcome('ok:empty-total')
                         continue
